@@ -3,7 +3,7 @@ import vf, renders
 KINDS = [("function", dict(np=1)), ("macro", dict(np=1)), ("variable", dict(vtype="str")), ("variable", dict(vtype="UNSET")),
          ("option", dict(default=False)), ("generic", dict(np=1)), ("ctest", dict(np=1)), ("test", {}), ("section", {}),
          ("module", {}),
-         ("class", dict(bases=1, ctors=[(1, 1, False)], methods=[(1, 1, True)], attrs=[True], inner=1))]
+         ("class", dict(bases=1, ctors=[(1, 1, False)], methods=[(1, 1, True)], attrs=[True], inner=2))]
 
 
 def build(tier):
